@@ -2,10 +2,43 @@
 use crate::core::f64_to_bits;
 use crate::rng::Rng;
 
-pub const CLASSES: [&str; 13] = [
+pub const CLASSES: [&str; 14] = [
     "uniform", "lattice", "allequal", "twovalued", "duppoints", "euclid", "geomline", "blobs", "sorted",
-    "revsorted", "magnitude", "negmixed", "colmajor",
+    "revsorted", "magnitude", "negmixed", "colmajor", "linewalk",
 ];
+
+/// Points on a line with strictly growing gaps, observation 0 leftmost, the others numbered so that a
+/// nearest-neighbour walk from 0 (Prim's order, the NN chain) visits a DESCENDING block of `l`
+/// consecutive indices `a+l-1, …, a` first, then `a+l, …, n-1`, then `1, …, a-1`: drives the active-list
+/// range queries through long runs of removed indices (block lengths around powers of two included).
+pub fn linewalk(n: usize, a: usize, l: usize) -> Vec<f64> {
+    let mut order: Vec<usize> = vec![0];
+    let a = a.max(1).min(n.saturating_sub(1).max(1));
+    let l = l.min(n.saturating_sub(a));
+    for i in (a..a + l).rev() {
+        order.push(i);
+    }
+    for i in a + l..n {
+        order.push(i);
+    }
+    for i in 1..a {
+        order.push(i);
+    }
+    let mut pos = vec![0.0f64; n];
+    let (mut x, mut gap) = (0.0f64, 1.0f64);
+    for &o in &order {
+        pos[o] = x;
+        x += gap;
+        gap *= 1.03125; // exactly representable growth, gaps stay distinct
+    }
+    let mut v = Vec::with_capacity(tri(n));
+    for i in 0..n {
+        for j in i + 1..n {
+            v.push((pos[i] - pos[j]).abs());
+        }
+    }
+    v
+}
 
 pub fn tri(n: usize) -> usize {
     if n < 2 {
@@ -112,6 +145,15 @@ pub fn matrix(rng: &mut Rng, class: &str, n: usize) -> Vec<f64> {
                 }
             }
             v
+        }
+        "linewalk" => {
+            if n < 4 {
+                return (0..len).map(|i| 1.0 + i as f64).collect();
+            }
+            let l = *rng.pick(&[1usize, 2, 7, 15, 16, 17, 31, 32, 33, 63, 64, 65]).min(&(n - 2));
+            let l = if rng.below(3) == 0 { rng.range(1, n - 2) } else { l };
+            let a = rng.range(1, (n - l).max(1));
+            linewalk(n, a, l)
         }
         "magnitude" => {
             let e = *rng.pick(&[150.0, -150.0, 100.0, -100.0]);
